@@ -38,6 +38,15 @@ THEOREMS = [
     # round 4: normalize refuses no non-singular cell (angle check of set_abc in the model), pbc edited in place
     'C05.angleGuard_of_det_ne_zero', 'C05.normalize_never_refuses', 'C05.angleGuard_refuses_parallel',
     'C05.hist_wrap_pbc_edited',
+    # growth round: uniqueness of the image flags, the entry points with their option handling (model C05_Src.lean)
+    'C05.wrap_flags_unique', 'C05.boxSetApi_refuses_iff', 'C05.wrapApi_spec', 'C05.api_wrap_reconstruct',
+    'C05.normalizeApi_style_iff', 'C05.api_normalize_never_refuses',
+    # source tie (Proofs/C05_Source.lean): every definition regenerated from /repo by translate() equals the hand model
+    'C05.gen_defaults_eq_model', 'C05.gen_flagTests_eq_model', 'C05.gen_literals_eq_model', 'C05.transformOK_eq_with',
+    'C05.gen_protocol_eq_model', 'C05.gen_axisBounds_eq_model', 'C05.gen_axisFlag_eq_model', 'C05.gen_paddedBox_eq_model',
+    'C05.gen_flip_eq_model', 'C05.gen_transform_eq_model', 'C05.gen_cleanEntry_eq_model', 'C05.gen_coords_eq_model',
+    'C05.gen_lengths_eq_model', 'C05.gen_setLengths_eq_model', 'C05.gen_abc_eq_model', 'C05.gen_vectAngleCos_eq_model',
+    'C05.gen_boxSetBody_eq_model', 'C05.gen_wrapBody_eq_model', 'C05.gen_wrapApi_eq_model', 'C05.gen_normalizeBody_eq_model',
 ]
 PARTIAL = {
     'input_left_as_it_was': 'a heap fact (aliasing/mutation), true by construction of the functional model and '
@@ -133,12 +142,20 @@ ASSUMPTIONS = [
     'arccos maps [-1, 1] strictly decreasingly onto [180, 0] degrees, so the refusal of Box.set_abc (an angle <= 0 or >= 180) '
     'is the test -1 < cos < 1 on the cosines vect_angle forms (angleGuard); normalize_never_refuses shows it never fires for '
     'a non-singular cell',
+    'source tie: two pieces of option handling are pinned by a normalised-AST hash instead of being regenerated as Lean '
+    'definitions - System.atoms_prop (the model uses only its key=\'pos\', scale=True, no-index paths: read = '
+    'position_cartesian_to_relative of the stored array, write = position_relative_to_cartesian stored under the key) and the '
+    'tail of vect_angle (clamp of the cosine to [-1, 1], 180 arccos / pi); an edit of either breaks gen_protocol_eq_model',
     'normalize: the rounding bound uses max(kappa, kabc), kabc = max(b/ly, c/lz) (heights of b over a and of c over the a-b '
     'plane): ly^2 = b^2 - xy^2 and lz^2 = c^2 - xz^2 - yz^2 are differences with relative error u b^2/ly^2, u c^2/lz^2 whatever '
     'the orientation of the cell (kappa of a LAMMPS-oriented cell with a tiny lz is of order 1)',
 ]
 TRUSTED = ['numpy (inner, dot, floor, min/max, inv, lstsq) inside the implementation run',
-           'rational square root of the driver (Nat.sqrt, error < 2^-160)']
+           'rational square root of the driver (Nat.sqrt, error < 2^-160)',
+           'the source reader translate() of this module (python ast): which numpy call it renders as which Lean term '
+           '(np.dot / np.cross / np.inner / x.dot(M) / np.linalg.inv / lstsq(A, B)[0] = inv(A) B / norm = sqrt of the '
+           'squared norm / einsum(...i,...i) = dot / x**0.5 = sqrt / deepcopy = value), and the meaning given to each '
+           'statement token by `exec` in lean/Atomman/C05_Src.lean']
 
 TOL = 1e-9
 
@@ -2212,6 +2229,8 @@ def correspond(ctx):
             dest.append(case)
     _corr_wrap(ctx, big_w)
     _corr_norm(ctx, big_n)
+    # the entry points with every kind of value for their options (own random stream: the cases above are unchanged)
+    _corr_api(ctx, _api_cases(random.Random(ctx.seed + 31), ctx.n(288, 2304)))
 
 
 def _inside_nonperiodic(rng, case):
@@ -3119,12 +3138,16 @@ def search(ctx, broken):
         case['ret'] = RETS_N_ALL[it % 10]
         ctx.stats.case('oracle:normalize:big', _big_label('norm', spec))
         _norm_clauses(ctx, case)
+    # the entry points: flag / scale / style values of every kind, decided by Python's own bool / isinstance / ==
+    for rec in _api_cases(random.Random(ctx.seed + 29), ctx.n(288, 2304) * mult):
+        ctx.stats.case('oracle:api:' + rec['kind'], rec['line'])
+        _api_clauses(ctx, rec)
     ctx.extra['bound_used'] = {k: round(v, 4) for k, v in sorted(MARGIN.items())}
 
 
 def replay(ctx, payload):
     r = payload.get('replay') or {}
-    cases = [r] if (r.get('case') or r.get('hist') or r.get('big') or r.get('op') == 'defaults') else \
+    cases = [r] if (r.get('case') or r.get('hist') or r.get('big') or r.get('op') in ('defaults', 'api')) else \
         [d for d in payload.get('disagreements', []) if d and (d.get('case') or d.get('hist'))]
     if not cases:
         search(ctx, True)
@@ -3136,6 +3159,21 @@ def replay(ctx, payload):
             print('replay history', _hist_name(h), 'pbc', h['case']['pbc'], '->', res or 'all clauses hold')
             if ctx.driver is not None:
                 _corr_hist(ctx, [{'case': h['case'], 'ops': h['ops']}])
+                for d in ctx.disagreements:
+                    print('replay: model/implementation disagree:', d.what)
+            continue
+        if r.get('op') == 'api':
+            rec = dict(r['api'])
+            _api_clauses(ctx, rec)
+            print('replay', rec['label'], '->', [v.what for v in ctx.violations] or 'all clauses hold')
+            if ctx.driver is not None:
+                k = rec['kind']
+                head = {'wrap': 'apiwrap ' + str(rec.get('a')), 'box': 'apibox ' + str(rec.get('a')),
+                        'norm': 'apinorm %s %s' % (rec.get('a'), rec.get('b')), 'lmp': 'apilmp ' + str(rec.get('b'))}[k]
+                rec['line'] = head + _line('', rec['case'])
+                if k == 'box':
+                    rec['line'] += ' ; ' + cm.frs([x for row in rec['box2'][0] for x in row]) + ' ' + cm.frs(rec['box2'][1])
+                _corr_api(ctx, [rec])
                 for d in ctx.disagreements:
                     print('replay: model/implementation disagree:', d.what)
             continue
@@ -3162,9 +3200,1022 @@ def replay(ctx, payload):
                 print('replay: model/implementation disagree:', d.what)
 
 
+# ----------------------------------------------------------------------------------------
+# the public entry points with their option handling: wrap(<flag>), box_set(scale=<x>), System.normalize(<style>, <flag>),
+# lammps.normalize(system, <flag>) - driver ops apiwrap / apibox / apinorm / apilmp, which run the statement lists and tests
+# REGENERATED from the source (Generated/WrapSource.lean; proved equal to the hand model in Proofs/C05_Source.lean)
+# ----------------------------------------------------------------------------------------
+_OMIT = object()
+
+
+def _pyargs():
+    import numpy as np
+    return [('omit', _OMIT), ('none', None), ('b0', False), ('b1', True), ('i:0', 0), ('i:1', 1), ('i:2', 2), ('i:-1', -1),
+            ('s:', ''), ('s:x', 'x'), ('s:False', 'False'), ('s:0', '0'), ('s:True', 'True'), ('f0', 0.0), ('f1', 1.0), ('f1', 0.5),
+            ('np0', np.False_), ('np1', np.True_)]
+
+
+def _pystyles():
+    return [('omit', _OMIT), ('omit', _OMIT), ('s:lammps', 'lammps'), ('s:lammps', 'lammps'), ('s:LAMMPS', 'LAMMPS'),
+            ('s:Lammps', 'Lammps'), ('s:lammp', 'lammp'), ('s:lammpss', 'lammpss'), ('s:l', 'l'), ('s:', ''), ('none', None),
+            ('b1', True), ('i:1', 1), ('i:0', 0), ('s:lammps_', 'lammps_'), ('s:ammps', 'ammps')]
+
+
+def _api_call(kind, system, a, b=_OMIT, how=0, box2=None):
+    """the real call in one of its spellings; returns what the call returned."""
+    import atomman as am
+    if kind == 'wrap':
+        if a is _OMIT:
+            return system.wrap()
+        return system.wrap(a) if how % 2 == 0 else system.wrap(return_imageflags=a)
+    if kind == 'box':
+        kw = {} if a is _OMIT else {'scale': a}
+        return system.box_set(vects=box2[0], origin=box2[1], **kw)
+    if kind == 'norm':
+        args, kw = [], {}
+        if a is not _OMIT:
+            if how % 2 == 0:
+                args.append(a)
+            else:
+                kw['style'] = a
+        if b is not _OMIT:
+            if how % 2 == 0 and a is not _OMIT and how % 4 == 0:
+                args.append(b)
+            else:
+                kw['return_transform'] = b
+        return system.normalize(*args, **kw)
+    if b is _OMIT:
+        return am.lammps.normalize(system)
+    return am.lammps.normalize(system, b) if how % 2 == 0 else am.lammps.normalize(system, return_transform=b)
+
+
+def _api_err(e):
+    if isinstance(e, TypeError):
+        return 'err:type'
+    return _impl_err(e)
+
+
+def _api_one(ctx, rec, out, report):
+    """one entry-point call compared with the driver's reply; `report(key, what)` on a difference."""
+    import numpy as np
+    kind, case = rec['kind'], rec['case']
+    pa = dict(_pyargs() + _pystyles())
+    a = pa[rec['a']] if rec.get('a') is not None else _OMIT
+    b = pa[rec['b']] if rec.get('b') is not None else _OMIT
+    if rec.get('a') == 'f1' and rec.get('aval') is not None:
+        a = rec['aval']
+    system = _build(case)
+    box2 = None
+    if rec.get('box2'):
+        box2 = (np.array(rec['box2'][0], dtype=float), np.array(rec['box2'][1], dtype=float))
+    try:
+        res = _api_call(kind, system, a, b, rec.get('how', 0), box2)
+        ierr = None
+    except Exception as e:  # noqa
+        res, ierr = None, _api_err(e)
+    if out.startswith('err:') or ierr:
+        if out != ierr:
+            report('api:' + kind + ':refusal', f'{rec["label"]}: implementation {ierr or "accepts"}, model '
+                   f'{out if out.startswith("err:") else "accepts"}')
+        return
+    sec = _sections(out)
+    V = _fm(case['vects'])
+    sc = max(abs(float(x)) for r in case['vects'] for x in r)
+    if kind == 'wrap':
+        ret = sec[0][1] == '1'
+        if (res is not None) != ret:
+            report('api:wrap:return', f'{rec["label"]}: implementation returns {type(res).__name__}, model '
+                   f'{"the image flags" if ret else "nothing"}')
+            return
+        mflags = [int(t) for t in sec[3]] if ret else None
+        if ret and (np.asarray(res).shape != (len(case['pos']), 3) or [int(x) for x in np.asarray(res).ravel()] != mflags):
+            report('api:wrap:flags', f'{rec["label"]}: image flags {np.asarray(res).ravel().tolist()}, model {mflags}')
+            return
+        got = list(system.box.vects.ravel()) + list(system.box.origin)
+        mpos = [F(t) for t in sec[2]]
+        ipos = system.atoms.view['pos'].ravel().tolist()
+        if any(F(float(x)) != y for x, y in zip(ipos, mpos)):
+            report('api:wrap:positions', f'{rec["label"]}: positions {ipos}, model {[float(y) for y in mpos]}')
+            return
+        mbox = [F(t) for t in sec[1]]
+        tolb = 1e-9 * max(abs(float(y)) for y in mbox)
+        if any(abs(float(x) - float(y)) > tolb for x, y in zip(got, mbox)):
+            report('api:wrap:box', f'{rec["label"]}: box {got}, model {[float(y) for y in mbox]}')
+        return
+    if kind == 'box':
+        if res is not None:
+            report('api:box:return', f'{rec["label"]}: box_set returned {res!r}')
+            return
+        mbox = [F(t) for t in sec[0][1:]]
+        got = list(system.box.vects.ravel()) + list(system.box.origin)
+        if any(F(float(x)) != y for x, y in zip(got, mbox)):
+            report('api:box:box', f'{rec["label"]}: box {got}, model {[float(y) for y in mbox]}')
+            return
+        mpos = [F(t) for t in sec[1]]
+        ipos = system.atoms.view['pos'].ravel().tolist()
+        tol = 1e-9 * (max(abs(float(y)) for y in mbox) + max(abs(float(y)) for y in mpos) + sc)
+        if any(abs(float(x) - float(y)) > tol for x, y in zip(ipos, mpos)):
+            report('api:box:positions', f'{rec["label"]}: positions {ipos}, model {[float(y) for y in mpos]} (scale argument '
+                   f'{rec["a"]}: {"relative coordinates held" if rec["a"] == "b1" else "Cartesian positions held"})')
+        return
+    # norm / lmp
+    ret = sec[0][1] == '1'
+    is_tuple = isinstance(res, tuple)
+    if is_tuple != ret or (is_tuple and len(res) != 2):
+        report('api:' + kind + ':return', f'{rec["label"]}: implementation returns '
+               f'{"(system, transformation)" if is_tuple else type(res).__name__}, model '
+               f'{"(system, transformation)" if ret else "the system alone"}')
+        return
+    new = res[0] if is_tuple else res
+    mbox = [F(t) for t in sec[1]]
+    kap = max(_kappa(V), _kabc(V))
+    tol = max(1e-9, CN * U * kap * kap) * max(abs(float(y)) for y in mbox[:9])
+    got = list(new.box.vects.ravel()) + list(new.box.origin)
+    if any(abs(float(x) - float(y)) > tol for x, y in zip(got, mbox)):
+        report('api:' + kind + ':box', f'{rec["label"]}: box {got}, model {[float(y) for y in mbox]}')
+        return
+    if is_tuple:
+        mT = [F(t) for t in sec[3]]
+        T = np.asarray(res[1], dtype=float).ravel().tolist()
+        if len(T) != 9 or any(abs(float(x) - float(y)) > max(1e-9, CN * U * kap * kap) for x, y in zip(T, mT)):
+            report('api:' + kind + ':transform', f'{rec["label"]}: transformation {T}, model {[float(y) for y in mT]}')
+
+
+def _api_cases(rng, n):
+    import numpy as np
+    A, S = _pyargs(), _pystyles()
+    recs = []
+    for it in range(n):
+        kind = ('wrap', 'box', 'norm', 'lmp')[it % 4]
+        pbc = rng.choice(PBCS) if kind in ('wrap', 'box') else (True, True, True)
+        case = _grid_case(rng, pbc, n=rng.randint(1, 4))
+        rec = {'kind': kind, 'case': case, 'how': rng.randint(0, 7)}
+        if kind == 'wrap':
+            rec['a'] = A[(it // 4) % len(A)][0]
+            if rec['a'] == 'f1':
+                rec['aval'] = A[(it // 4) % len(A)][1]
+            rec['line'] = 'apiwrap ' + rec['a'] + _line('', case)
+        elif kind == 'box':
+            rec['a'] = A[(it // 4) % len(A)][0]
+            if rec['a'] == 'f1':
+                rec['aval'] = A[(it // 4) % len(A)][1]
+            V2 = _grid_cell(rng)
+            o2 = [cm.dyadic(rng, -4, 4, 2) for _ in range(3)]
+            c2 = _canon_case({'vects': V2.tolist(), 'origin': o2, 'pbc': list(pbc), 'pos': [], 'regime': 'grid'})
+            rec['box2'] = (c2['vects'], c2['origin'])
+            rec['line'] = 'apibox ' + rec['a'] + _line('', case) + ' ; ' + cm.frs([x for r in c2['vects'] for x in r]) + ' ' \
+                + cm.frs(c2['origin'])
+        elif kind == 'norm':
+            rec['a'] = S[(it // 4) % len(S)][0] if it % 3 else rng.choice(S)[0]
+            rec['b'] = A[(it // 4 + it // 64) % len(A)][0]
+            if rec['a'] == 'omit' and rec['b'] != 'omit':
+                rec['how'] |= 1                      # (the flag cannot be positional when the style is omitted)
+            rec['line'] = 'apinorm ' + rec['a'] + ' ' + rec['b'] + _line('', case)
+        else:
+            rec['b'] = A[(it // 4) % len(A)][0]
+            rec['line'] = 'apilmp ' + rec['b'] + _line('', case)
+        rec['label'] = {'wrap': 'wrap(%s)', 'box': 'box_set(vects=, origin=, scale=%s)', 'norm': 'normalize(style %s, flag %s)',
+                        'lmp': 'lammps.normalize(system, %s)'}[kind] % \
+            ((rec.get('a'), rec.get('b')) if kind == 'norm' else ((rec.get('b'),) if kind == 'lmp' else (rec.get('a'),)))
+        recs.append(rec)
+    return recs
+
+
+def _pub_api(rec):
+    return {k: v for k, v in rec.items() if k != 'line'}
+
+
+def _corr_api(ctx, recs):
+    outs = ctx.driver.ask_many([r['line'] for r in recs])
+    for rec, out in zip(recs, outs):
+        ctx.stats.case('api:' + rec['kind'], rec['line'], nontrivial=rec.get('a') not in (None, 'omit', 'b0', 'b1')
+                       or rec.get('b') not in (None, 'omit', 'b0', 'b1'))
+        _api_one(ctx, rec, out, lambda key, what: ctx.disagree(key, what, {'op': 'api', 'api': _pub_api(rec)}))
+
+
+def _api_clauses(ctx, rec):
+    """the option handling decided WITHOUT the model: Python's own bool() / isinstance / == on the value handed over."""
+    import numpy as np
+    kind, case = rec['kind'], rec['case']
+    pa = dict(_pyargs() + _pystyles())
+    a = pa[rec['a']] if rec.get('a') is not None else _OMIT
+    b = pa[rec['b']] if rec.get('b') is not None else _OMIT
+    if rec.get('a') == 'f1' and rec.get('aval') is not None:
+        a = rec['aval']
+    system = _build(case)
+    before = _snap(system)
+    box2 = None
+    if rec.get('box2'):
+        box2 = (np.array(rec['box2'][0], dtype=float), np.array(rec['box2'][1], dtype=float))
+    replay = {'op': 'api', 'api': _pub_api(rec)}
+    try:
+        res = _api_call(kind, system, a, b, rec.get('how', 0), box2)
+        err = None
+    except Exception as e:  # noqa
+        res, err = None, e
+    lab = rec['label']
+    if kind == 'wrap':
+        want = False if a is _OMIT else bool(a)
+        if err is not None:
+            ctx.violate('wrap:raises', f'{lab} raised {type(err).__name__}: {err}', replay)
+        elif (res is not None) != want:
+            ctx.violate('wrap:flags-shape', f'{lab}: a {"truthy" if want else "falsy"} flag, but wrap returned '
+                        f'{"nothing" if res is None else "image flags"}', replay)
+    elif kind == 'box':
+        sc = False if a is _OMIT else a
+        refuse = not isinstance(sc, bool)
+        if refuse and not isinstance(err, TypeError):
+            ctx.violate('refusal:box_set-scale-type', f'{lab}: scale is not a bool, expected the documented TypeError, got '
+                        f'{"no exception" if err is None else type(err).__name__}', replay)
+        elif refuse and _same_snap(before, _snap(system)):
+            ctx.violate('refusal:box_set-scale-type', f'{lab}: the refused call changed {_same_snap(before, _snap(system))}', replay)
+        elif not refuse and err is not None:
+            ctx.violate('boxset:raises', f'{lab} raised {type(err).__name__}: {err}', replay)
+        elif not refuse:
+            # scale=True: relative coordinates held; scale=False / omitted: Cartesian positions held
+            V0, o0 = _fm(case['vects']), _fv(case['origin'])
+            V1, o1 = _fm(system.box.vects.tolist()), _fv(system.box.origin.tolist())
+            pos1 = system.atoms.view['pos'].tolist()
+            for i, (p0, p1) in enumerate(zip(case['pos'], pos1)):
+                if sc is True:
+                    s0 = _rel(_fv(p0), V0, _inv(V0), o0)
+                    s1 = _rel(_fv(p1), V1, _inv(V1), o1)
+                    bad = any(abs(float(x - y)) > 1e-9 * (1 + abs(float(x))) for x, y in zip(s0, s1))
+                else:
+                    bad = [float(x) for x in p0] != [float(x) for x in p1]
+                if bad:
+                    ctx.violate('boxset:relative-positions' if sc is True else 'boxset:absolute-positions',
+                                f'{lab}: atom {i} {p0} -> {p1}', replay)
+                    break
+    else:
+        style = 'lammps' if (a is _OMIT or kind == 'lmp') else a
+        flag = False if b is _OMIT else bool(b)
+        accept = isinstance(style, str) and style == 'lammps'
+        if not accept:
+            if not isinstance(err, ValueError):
+                ctx.violate('refusal:normalize-style', f'{lab}: only the style \'lammps\' exists, expected the documented '
+                            f'ValueError, got {"a result" if err is None else type(err).__name__}', replay)
+        elif err is not None:
+            ctx.violate('normalize:raises', f'{lab} raised {type(err).__name__}: {err}', replay)
+        elif isinstance(res, tuple) != flag:
+            ctx.violate('normalize:return', f'{lab}: a {"truthy" if flag else "falsy"} flag, but normalize returned '
+                        f'{"(system, transformation)" if isinstance(res, tuple) else "the system alone"}', replay)
+        if _same_snap(before, _snap(system)):
+            ctx.violate('normalize:input-modified', f'{lab} changed {_same_snap(before, _snap(system))}', replay)
+
+
+# ----------------------------------------------------------------------------------------
+# translator: the source of wrap / box_set / normalize and of the Box pieces they run through, read with `ast` on every
+# run and written to lean/Atomman/Generated/WrapSource.lean; Proofs/C05_Source.lean proves every generated definition equal
+# to the hand-written model's (theorems gen_*_eq_model).  Anything the reader below does not recognise raises
+# TranslationError (the check then reports the broken tie and runs the failing-input search on the committed model).
+# ----------------------------------------------------------------------------------------
+GENERATED = ['WrapSource']
+
+
+def translate():
+    import ast
+    import hashlib
+    from ..translate import TranslationError
+
+    def bad(msg):
+        raise TranslationError('C05 source reader: ' + msg)
+
+    U = ast.unparse
+
+    def body_of(fn):
+        b = fn.body
+        if b and isinstance(b[0], ast.Expr) and isinstance(b[0].value, ast.Constant) and isinstance(b[0].value.value, str):
+            b = b[1:]
+        return b
+
+    def cls_of(tree, name):
+        c = [n for n in tree.body if isinstance(n, ast.ClassDef) and n.name == name]
+        if len(c) != 1:
+            bad(f'class {name} not found exactly once')
+        return c[0]
+
+    def method(cls, name, setter=False):
+        out = []
+        for n in cls.body:
+            if isinstance(n, ast.FunctionDef) and n.name == name:
+                decos = [U(d) for d in n.decorator_list]
+                if setter == (f'{name}.setter' in decos):
+                    out.append(n)
+        if len(out) != 1:
+            bad(f'{cls.name}.{name}{" setter" if setter else ""} not found exactly once')
+        return out[0]
+
+    def default_of(fn, arg):
+        a = fn.args
+        names = [x.arg for x in a.args]
+        if arg not in names:
+            bad(f'{fn.name} has no parameter {arg}')
+        k = names.index(arg) - (len(names) - len(a.defaults))
+        if k < 0:
+            return None
+        return a.defaults[k]
+
+    def pyval(node):
+        if node is None:
+            bad('missing default')
+        if isinstance(node, ast.Constant):
+            v = node.value
+            if v is None:
+                return '.none'
+            if isinstance(v, bool):
+                return f'.bool {"true" if v else "false"}'
+            if isinstance(v, int):
+                return f'.int ({v})'
+            if isinstance(v, str) and '"' not in v and '\\' not in v:
+                return f'.str "{v}"'
+            if isinstance(v, float):
+                return f'.float {"true" if v != 0 else "false"}'
+        bad(f'default value {U(node)} is not a plain literal')
+
+    def rat(x):
+        fr = F(x)
+        return f'mkRat {fr.numerator} {fr.denominator}' if fr >= 0 else f'mkRat ({fr.numerator}) {fr.denominator}'
+
+    def num(node):
+        if isinstance(node, ast.Constant) and isinstance(node.value, (int, float)) and not isinstance(node.value, bool):
+            return node.value
+        bad(f'{U(node)} is not a numeric literal')
+
+    CMP = {ast.LtE: '≤', ast.GtE: '≥', ast.Lt: '<', ast.Gt: '>'}
+
+    def tr(node, env):
+        """(lean text, type) of an expression; types K (scalar), V (3-vector), M (3x3), P (proposition)."""
+        key = U(node)
+        if key in env:
+            return env[key]
+        if isinstance(node, ast.Constant) and isinstance(node.value, (int, float)) and not isinstance(node.value, bool):
+            if node.value == 0:
+                return '0', 'K'
+            if node.value == 1:
+                return '1', 'K'
+            bad(f'literal {key} where none is expected')
+        if isinstance(node, ast.UnaryOp) and isinstance(node.op, ast.USub):
+            a, t = tr(node.operand, env)
+            if t in 'KV':
+                return f'(-{a})', t
+        if isinstance(node, ast.BinOp):
+            if isinstance(node.op, ast.Pow):
+                a, t = tr(node.left, env)
+                e = num(node.right)
+                if t == 'K' and e == 2 and isinstance(e, int):
+                    return f'({a} * {a})', 'K'
+                if t == 'K' and e == 0.5:
+                    return f'(sqrt {a})', 'K'
+                bad(f'power {key}')
+            a, ta = tr(node.left, env)
+            b, tb = tr(node.right, env)
+            if isinstance(node.op, (ast.Add, ast.Sub)) and ta == tb and ta in 'KV':
+                return f'({a} {"+" if isinstance(node.op, ast.Add) else "-"} {b})', ta
+            if isinstance(node.op, ast.Mult):
+                if (ta, tb) == ('K', 'K'):
+                    return f'({a} * {b})', 'K'
+                if (ta, tb) == ('V', 'K'):
+                    return f'(V3.smul {b} {a})', 'V'
+                if (ta, tb) == ('K', 'V'):
+                    return f'(V3.smul {a} {b})', 'V'
+            if isinstance(node.op, ast.Div):
+                if (ta, tb) == ('K', 'K'):
+                    return f'({a} / {b})', 'K'
+                if (ta, tb) == ('V', 'K'):
+                    return f'(vdiv {a} {b})', 'V'
+            bad(f'operator in {key}')
+        if isinstance(node, ast.Compare) and len(node.ops) == 1 and type(node.ops[0]) in CMP:
+            a, ta = tr(node.left, env)
+            b, tb = tr(node.comparators[0], env)
+            if (ta, tb) == ('K', 'K'):
+                return f'({a} {CMP[type(node.ops[0])]} {b})', 'P'
+            bad(f'comparison {key}')
+        if isinstance(node, ast.Attribute) and node.attr == 'T':
+            a, t = tr(node.value, env)
+            if t == 'M':
+                return f'{a}.transpose' if a.isidentifier() else f'({a}).transpose', 'M'
+            if t == 'V':
+                return a, 'V'                       # .T of a 1-D array is the array
+        if isinstance(node, ast.List) and len(node.elts) == 3:
+            parts = [tr(e, env) for e in node.elts]
+            ts = {t for _, t in parts}
+            if ts == {'K'}:
+                return '⟨' + ', '.join(p for p, _ in parts) + '⟩', 'V'
+            if ts == {'V'}:
+                return '⟨' + ', '.join(p for p, _ in parts) + '⟩', 'M'
+        if isinstance(node, ast.Subscript) and U(node.slice) == '0' and isinstance(node.value, ast.Call) \
+                and U(node.value.func) == 'np.linalg.lstsq':
+            c = node.value
+            if len(c.args) == 2 and [(k.arg, U(k.value)) for k in c.keywords] == [('rcond', 'None')]:
+                a, ta = tr(c.args[0], env)
+                b, tb = tr(c.args[1], env)
+                if (ta, tb) == ('M', 'M'):
+                    return f'(M3.mul (M3.inv {a}) {b})', 'M'   # exact solve of the square non-singular system
+        if isinstance(node, ast.Call):
+            f = U(node.func)
+            if f == 'np.einsum':
+                if len(node.args) == 3 and U(node.args[0]) == "'...i,...i'" and not node.keywords:
+                    a, ta = tr(node.args[1], env)
+                    b, tb = tr(node.args[2], env)
+                    if (ta, tb) == ('V', 'V'):
+                        return f'(V3.dot {a} {b})', 'K'
+                bad(f'expression {key}')
+            args = [tr(a, env) for a in node.args]
+            kws = [(k.arg, U(k.value)) for k in node.keywords]
+            ts = [t for _, t in args]
+            xs = [x for x, _ in args]
+            if f == 'deepcopy' and len(args) == 1 and not kws:
+                return args[0]
+            if f == 'np.dot' and ts == ['V', 'V'] and not kws:
+                return f'(V3.dot {xs[0]} {xs[1]})', 'K'
+            if f == 'np.cross' and ts == ['V', 'V'] and not kws:
+                return f'(V3.cross {xs[0]} {xs[1]})', 'V'
+            if f == 'np.inner' and ts == ['V', 'M'] and not kws:
+                return f'(M3.mulVec {xs[1]} {xs[0]})', 'V'
+            if f == 'np.linalg.inv' and ts == ['M'] and not kws:
+                return f'(M3.inv {xs[0]})', 'M'
+            if f == 'np.linalg.norm' and ts == ['V'] and kws == [('axis', '-1')]:
+                return f'(sqrt (V3.normSq {xs[0]}))', 'K'
+            if isinstance(node.func, ast.Attribute) and node.func.attr == 'dot' and len(node.args) == 1 and not kws:
+                a, ta = tr(node.func.value, env)
+                if (ta, ts[0]) == ('V', 'M'):
+                    return f'(M3.vecMul {a} {xs[0]})', 'V'
+        bad(f'expression {key}')
+
+    def kwcall(node, fname):
+        """keywords of the expression statement `fname(k=v, …)`."""
+        if not (isinstance(node, ast.Expr) and isinstance(node.value, ast.Call) and U(node.value.func) == fname
+                and not node.value.args):
+            return None
+        if any(k.arg is None for k in node.value.keywords):
+            return 'starred'
+        return [(k.arg, k.value) for k in node.value.keywords]
+
+    def flag_test(test, name):
+        if U(test) == name:
+            return 'v.truthy'
+        if U(test) == f'{name} is True':
+            return 'v.isTrue'
+        bad(f'test {U(test)} on {name}')
+
+    def pin(fn):
+        d = ast.dump(ast.Module(body=body_of(fn), type_ignores=[]), annotate_fields=True, include_attributes=False)
+        args = ast.dump(fn.args, include_attributes=False)
+        return hashlib.sha256((args + d).encode()).hexdigest()[:20]
+
+    GET = "self.atoms_prop('pos', scale=True)"
+    PUT = "self.atoms_prop('pos', value=spos, scale=True)"
+
+    # ---------------------------------------------------------------- System.py
+    stree = ast.parse(cm.source('atomman/core/System.py'))
+    imp = [n for n in stree.body if isinstance(n, ast.ImportFrom) and any(a.asname == 'lmp_normalize' for a in n.names)]
+    if len(imp) != 1 or imp[0].module != 'lammps' or imp[0].level != 2 or [a.name for a in imp[0].names] != ['normalize']:
+        bad('lmp_normalize is not `from ..lammps import normalize`')
+    S = cls_of(stree, 'System')
+    out = {}
+
+    # box_set
+    fn = method(S, 'box_set')
+    b = body_of(fn)
+    if not (fn.args.kwarg and fn.args.kwarg.arg == 'kwargs' and len(fn.args.args) == 1 and len(b) == 3):
+        bad('box_set: signature / number of statements')
+    if not (isinstance(b[0], ast.Assign) and U(b[0].targets[0]) == 'scale' and isinstance(b[0].value, ast.Call)
+            and U(b[0].value.func) == 'kwargs.pop' and len(b[0].value.args) == 2 and U(b[0].value.args[0]) == "'scale'"):
+        bad('box_set: scale is not popped from kwargs with a default')
+    out['boxSetScaleDefault'] = pyval(b[0].value.args[1])
+    g = b[1]
+    if not (isinstance(g, ast.If) and not g.orelse and len(g.body) == 1 and isinstance(g.body[0], ast.Raise)
+            and U(g.test) == 'not isinstance(scale, bool)'):
+        bad('box_set: type guard')
+    exc = U(g.body[0].exc.func) if isinstance(g.body[0].exc, ast.Call) else U(g.body[0].exc)
+    ERR = {'TypeError': '.typeError', 'ValueError': '.valueError', 'AssertionError': '.assertion'}
+    if exc not in ERR:
+        bad('box_set: refusal ' + exc)
+    out['boxSetRefusal'] = ERR[exc]
+    br = b[2]
+    if not isinstance(br, ast.If):
+        bad('box_set: branch')
+    out['boxSetScaledBranch'] = flag_test(br.test, 'scale')
+
+    def box_set_stmts(stmts):
+        res = []
+        for st in stmts:
+            if isinstance(st, ast.Assign) and U(st.targets[0]) == 'spos' and U(st.value) == GET:
+                res.append('.getSpos')
+            elif isinstance(st, ast.Expr) and U(st.value) == 'self.box.set(**kwargs)':
+                res.append('.setBoxKw')
+            elif isinstance(st, ast.Expr) and U(st.value) == PUT:
+                res.append('.putSpos')
+            else:
+                bad('box_set: statement ' + U(st)[:60])
+        return res
+    out['boxSetScaledBody'] = box_set_stmts(br.body)
+    out['boxSetPlainBody'] = box_set_stmts(br.orelse)
+
+    # wrap
+    fn = method(S, 'wrap')
+    out['wrapFlagDefault'] = pyval(default_of(fn, 'return_imageflags'))
+    prog = []
+    inits = {}
+    formulas = {}
+    seen_ret = False
+    b = body_of(fn)
+    k = 0
+    while k < len(b):
+        st = b[k]
+        k += 1
+        if seen_ret:
+            bad('wrap: statement after the return')
+        if isinstance(st, ast.Assign) and len(st.targets) == 1:
+            t, v = U(st.targets[0]), st.value
+            if t in ('mins', 'maxs') and isinstance(v, ast.Call) and U(v.func) == 'np.array' and len(v.args) == 1 \
+                    and isinstance(v.args[0], ast.List) and len(v.args[0].elts) == 3 and not prog:
+                inits[t] = [num(e) for e in v.args[0].elts]
+                continue
+            if t == 'spos' and U(v) == GET:
+                prog.append('.getSpos')
+                continue
+            if t == 'imageflags' and U(v) == 'np.zeros_like(spos, dtype=int)':
+                prog.append('.zeroFlags')
+                continue
+            if t in ('origin', 'avect', 'bvect', 'cvect'):
+                grp = [st]
+                while k < len(b) and isinstance(b[k], ast.Assign) and U(b[k].targets[0]) in ('origin', 'avect', 'bvect', 'cvect'):
+                    grp.append(b[k])
+                    k += 1
+                if sorted(U(s.targets[0]) for s in grp) != ['avect', 'bvect', 'cvect', 'origin'] or 'origin' in formulas:
+                    bad('wrap: the new origin and cell vectors are not four consecutive assignments')
+                env = {'self.box.origin': ('origin', 'V'), 'self.box.vects': ('vects', 'M'), 'mins': ('mins', 'V'),
+                       'maxs': ('maxs', 'V')}
+                for i, nm in enumerate('abc'):
+                    env[f'self.box.{nm}vect'] = (f'vects.r{i}', 'V')
+                    env[f'mins[{i}]'] = (f'mins.{"xyz"[i]}', 'K')
+                    env[f'maxs[{i}]'] = (f'maxs.{"xyz"[i]}', 'K')
+                for s in grp:
+                    x, ty = tr(s.value, env)
+                    if ty != 'V':
+                        bad('wrap: ' + U(s))
+                    formulas[U(s.targets[0])] = x
+                prog.append('.newBoxFromBounds')
+                continue
+        if isinstance(st, ast.For) and U(st.target) == 'i' and U(st.iter) == 'range(3)' and not st.orelse \
+                and len(st.body) == 1 and isinstance(st.body[0], ast.If) and U(st.body[0].test) == 'self.pbc[i]':
+            iff = st.body[0]
+            if not (len(iff.body) == 1 and isinstance(iff.body[0], ast.Assign)
+                    and U(iff.body[0].targets[0]) == 'imageflags[:, i]'
+                    and U(iff.body[0].value) == 'np.floor(spos[:, i])'):
+                bad('wrap: periodic branch of the loop')
+            e = iff.orelse
+            if not (len(e) == 4 and U(e[0]) == 'min = spos[:, i].min()' and U(e[1]) == 'max = spos[:, i].max()'):
+                bad('wrap: min / max of the non-periodic branch')
+            env = {'min': ('mn', 'K'), 'max': ('mx', 'K'), 'mins[i]': ('lo', 'K'), 'maxs[i]': ('hi', 'K')}
+            for st2, tgt, padname, other in ((e[2], 'mins[i]', 'padLo', 'lo'), (e[3], 'maxs[i]', 'padHi', 'hi')):
+                if not (isinstance(st2, ast.If) and not st2.orelse and len(st2.body) == 1
+                        and isinstance(st2.body[0], ast.Assign) and U(st2.body[0].targets[0]) == tgt
+                        and isinstance(st2.body[0].value, ast.BinOp) and isinstance(st2.body[0].value.right, ast.Constant)):
+                    bad('wrap: padding statement ' + U(st2)[:60])
+                val = st2.body[0].value
+                inits[padname] = num(val.right)
+                cond, _ = tr(st2.test, env)
+                newv, _ = tr(val, dict(env, **{U(val.right): (padname, 'K')}))
+                formulas[padname] = f'if {cond} then {newv} else {other}'
+            prog.append('.loopAxes')
+            continue
+        if isinstance(st, ast.AugAssign) and U(st) == 'spos -= imageflags':
+            prog.append('.subFlags')
+            continue
+        if isinstance(st, ast.Expr) and U(st.value) == PUT:
+            prog.append('.putSpos')
+            continue
+        kw = kwcall(st, 'self.box_set')
+        if kw is not None:
+            if kw == 'starred' or [(a, U(v)) for a, v in kw] != [(x, x) for x in ('avect', 'bvect', 'cvect', 'origin')]:
+                bad('wrap: keywords of the final box_set')
+            prog.append('.setBoxKw')
+            continue
+        if isinstance(st, ast.If) and not st.orelse and len(st.body) == 1 and U(st.body[0]) == 'return imageflags':
+            out['wrapReturnsFlags'] = flag_test(st.test, 'return_imageflags')
+            seen_ret = True
+            continue
+        bad('wrap: statement ' + U(st)[:70])
+    for need in ('mins', 'maxs', 'padLo', 'padHi'):
+        if need not in inits:
+            bad('wrap: ' + need + ' not found')
+    for need in ('origin', 'avect', 'bvect', 'cvect', 'padLo', 'padHi'):
+        if need not in formulas:
+            bad('wrap: formula for ' + need + ' not found')
+    if not seen_ret:
+        bad('wrap: no conditional return of the image flags')
+    out['wrapBody'] = prog
+
+    # System.normalize
+    fn = method(S, 'normalize')
+    out['normStyleDefault'] = pyval(default_of(fn, 'style'))
+    out['normFlagDefault'] = pyval(default_of(fn, 'return_transform'))
+    b = body_of(fn)
+    if not (len(b) == 1 and isinstance(b[0], ast.If) and isinstance(b[0].test, ast.Compare) and U(b[0].test.left) == 'style'
+            and len(b[0].test.ops) == 1 and isinstance(b[0].test.ops[0], ast.Eq)
+            and len(b[0].body) == 1 and U(b[0].body[0]) == 'return lmp_normalize(self, return_transform=return_transform)'
+            and len(b[0].orelse) == 1 and isinstance(b[0].orelse[0], ast.Raise)):
+        bad('System.normalize: body')
+    out['normStyleAccepted'] = pyval(b[0].test.comparators[0])
+    exc = b[0].orelse[0].exc
+    exc = U(exc.func) if isinstance(exc, ast.Call) else U(exc)
+    if exc not in ERR:
+        bad('System.normalize: refusal')
+    out['normStyleRefusal'] = ERR[exc]
+    out['atomsPropPin'] = pin(method(S, 'atoms_prop'))
+
+    # ---------------------------------------------------------------- lammps/normalize.py
+    ntree = ast.parse(cm.source('atomman/lammps/normalize.py'))
+    fns = [n for n in ntree.body if isinstance(n, ast.FunctionDef) and n.name == 'normalize']
+    if len(fns) != 1:
+        bad('lammps.normalize not found')
+    fn = fns[0]
+    if [a.arg for a in fn.args.args] != ['system', 'return_transform']:
+        bad('lammps.normalize: parameters')
+    out['lmpFlagDefault'] = pyval(default_of(fn, 'return_transform'))
+    benv = {'system.box.origin': ('origin', 'V'), 'system.box.vects': ('vects', 'M')}
+    for i, nm in enumerate('abc'):
+        benv[f'system.box.{nm}vect'] = (f'vects.r{i}', 'V')
+    prog = []
+    asserts = []
+    nform = {}
+    done = False
+    for st in body_of(fn):
+        if done:
+            bad('lammps.normalize: statement after the return')
+        if asserts and not isinstance(st, (ast.Assert, ast.If)):
+            bad('lammps.normalize: statement between the self-checks')
+        if isinstance(st, ast.Assign) and len(st.targets) == 1:
+            t = U(st.targets[0])
+            if t == 'system' and U(st.value) == 'deepcopy(system)':
+                prog.append('.copy')
+                continue
+            if t == 'vects' and U(st.value) == 'deepcopy(system.box.vects)':
+                prog.append('.saveVects')
+                continue
+            if t == 'transformation':
+                x, ty = tr(st.value, dict(benv, vects=('saved', 'M'), **{'system.box.vects': ('vects', 'M')}))
+                if ty != 'M':
+                    bad('lammps.normalize: transformation')
+                nform['transform'] = x
+                prog.append('.fitTransform')
+                continue
+            if t == 'test1' and U(st.value) == 'np.linalg.norm(transformation, axis=1)' and prog and prog[-1] == '.fitTransform':
+                continue
+        if isinstance(st, ast.If) and not asserts and not st.orelse and len(st.body) == 1:
+            kw = kwcall(st.body[0], 'system.box_set')
+            if kw is None or kw == 'starred' or [a for a, _ in kw] != ['avect', 'bvect', 'cvect', 'origin']:
+                bad('lammps.normalize: the reversal of a left-handed cell')
+            c, ty = tr(st.test, benv)
+            if ty != 'P':
+                bad('lammps.normalize: handedness test')
+            nform['leftHanded'] = c
+            vs = [tr(v, benv) for _, v in kw]
+            if [ty for _, ty in vs] != ['V'] * 4:
+                bad('lammps.normalize: arguments of the reversal')
+            nform['flipVects'] = '⟨' + ', '.join(x for x, _ in vs[:3]) + '⟩'
+            nform['flipOrigin'] = vs[3][0]
+            prog.append('.flipIfLeft')
+            continue
+        kw = kwcall(st, 'system.box_set')
+        if kw is not None:
+            want = [(x, 'system.box.' + x) for x in ('a', 'b', 'c', 'alpha', 'beta', 'gamma')] + [('scale', 'True')]
+            if kw == 'starred' or sorted((a, U(v)) for a, v in kw) != sorted(want):
+                bad('lammps.normalize: keywords of the rebuild')
+            prog.append('.rebuild')
+            continue
+        if isinstance(st, ast.Expr) and U(st.value) == 'system.wrap()':
+            prog.append('.wrapCall')
+            continue
+        if isinstance(st, ast.Assert):
+            asserts.append(st.test)
+            continue
+        if isinstance(st, ast.If) and asserts and len(st.body) == 1 and len(st.orelse) == 1 \
+                and U(st.body[0]) == 'return (system, transformation)' and U(st.orelse[0]) == 'return system':
+            out['lmpReturnsTransform'] = flag_test(st.test, 'return_transform')
+            done = True
+            continue
+        bad('lammps.normalize: statement ' + U(st)[:70])
+    if not done or 'transform' not in nform or 'leftHanded' not in nform:
+        bad('lammps.normalize: incomplete')
+    out['normalizeBody'] = prog
+    # the four self-checks
+    if len(asserts) != 4 or U(asserts[0]) != 'np.allclose(test1, np.array([1.0, 1.0, 1.0]))':
+        bad('lammps.normalize: row-norm self-check')
+    pairs = []
+    atols = set()
+    for a in asserts[1:]:
+        ok = isinstance(a, ast.Call) and U(a.func) == 'np.isclose' and len(a.args) == 2 and num(a.args[1]) == 0 \
+            and [k.arg for k in a.keywords] == ['atol'] and isinstance(a.args[0], ast.Call) \
+            and isinstance(a.args[0].func, ast.Attribute) and a.args[0].func.attr == 'dot' and len(a.args[0].args) == 1
+        if not ok:
+            bad('lammps.normalize: orthogonality self-check ' + U(a))
+        l, r = a.args[0].func.value, a.args[0].args[0]
+        for x in (l, r):
+            if not (isinstance(x, ast.Subscript) and U(x.value) == 'transformation' and isinstance(x.slice, ast.Constant)):
+                bad('lammps.normalize: orthogonality self-check ' + U(a))
+        pairs.append((l.slice.value, r.slice.value))
+        atols.add(repr(num(a.keywords[0].value)))
+    if len(atols) != 1:
+        bad('lammps.normalize: different tolerances in the orthogonality self-checks')
+    out['assertOrthoPairs'] = pairs
+    out['assertOrthoAtol'] = rat(atols.pop())           # the decimal reading of the literal
+
+    # ---------------------------------------------------------------- Box.py
+    btree = ast.parse(cm.source('atomman/core/Box.py'))
+    B = cls_of(btree, 'Box')
+    # vects setter
+    b = body_of(method(B, 'vects', setter=True))
+    steps = []
+    tiny = None
+    clean = None
+    for st in b:
+        if U(st) == 'self.__vects[:] = value':
+            steps.append('write')
+        elif U(st) == 'self.__reciprocal_vects = None':
+            steps.append('dropCache')
+        elif isinstance(st, ast.Assign) and isinstance(st.targets[0], ast.Subscript) and U(st.targets[0].value) == 'self.__vects' \
+                and isinstance(st.targets[0].slice, ast.Call) and U(st.targets[0].slice.func) == 'np.isclose':
+            c = st.targets[0].slice
+            if not (len(c.args) == 2 and num(c.args[1]) == 0 and [k.arg for k in c.keywords] == ['atol'] and num(st.value) == 0):
+                bad('Box.vects setter: clean-up')
+            tiny = num(c.keywords[0].value)
+            x, ty = tr(c.args[0], {'self.__vects': ('x', 'K'), 'abs(self.__vects).max()': ('m', 'K')})
+            clean = f'if absK {x} ≤ tiny then 0 else x'
+            steps.append('clean')
+        else:
+            bad('Box.vects setter: statement ' + U(st)[:60])
+    if clean is None:
+        bad('Box.vects setter: no clean-up')
+    out['vectsSetterSteps'] = steps
+    b = body_of(method(B, 'origin', setter=True))
+    out['originSetterSteps'] = ['write' if U(st) == 'self.__origin[:] = value' else bad('Box.origin setter: ' + U(st)[:60])
+                                for st in b]
+    # reciprocal_vects
+    b = body_of(method(B, 'reciprocal_vects'))
+    if not (len(b) == 2 and isinstance(b[0], ast.If) and U(b[0].test) == 'self.__reciprocal_vects is None' and not b[0].orelse
+            and len(b[0].body) == 1 and isinstance(b[0].body[0], ast.Assign)
+            and U(b[0].body[0].targets[0]) == 'self.__reciprocal_vects'
+            and U(b[1]) == 'return deepcopy(self.__reciprocal_vects)'):
+        bad('Box.reciprocal_vects: body')
+    recip, ty = tr(b[0].body[0].value, {'self.vects': ('vects', 'M')})
+    # position_* (last statement is the return; the ones before only check the shape)
+    def last_return(name, env):
+        bb = body_of(method(B, name))
+        if not isinstance(bb[-1], ast.Return):
+            bad(name + ': no final return')
+        pre = [U(s) for s in bb[:-1]]
+        return tr(bb[-1].value, env)[0], pre
+    c2r, pre = last_return('position_cartesian_to_relative',
+                           {'value': ('value', 'V'), 'self.origin': ('origin', 'V'), 'self.reciprocal_vects': ('recip', 'M')})
+    if pre != ['value = np.asarray(cartpos, dtype=float)',
+               "if value.shape[-1] != 3:\n    raise ValueError('Invalid position dimensions')"]:
+        bad('position_cartesian_to_relative: preamble')
+    r2c, pre = last_return('position_relative_to_cartesian',
+                           {'relpos': ('relpos', 'V'), 'self.origin': ('origin', 'V'), 'self.vects': ('vects', 'M')})
+    if pre != ['relpos = np.asarray(relpos, dtype=float)',
+               "if relpos.shape[-1] != 3:\n    raise ValueError('Invalid position dimensions')"]:
+        bad('position_relative_to_cartesian: preamble')
+    # avect bvect cvect
+    for i, nm in enumerate('abc'):
+        bb = body_of(method(B, nm + 'vect'))
+        if [U(s) for s in bb] != [f'return self.vects[{i}]']:
+            bad(f'Box.{nm}vect')
+    # a b c
+    lens = []
+    venv = {f'self.__vects[{i}, {j}]': (f'vects.r{i}.{"xyz"[j]}', 'K') for i in range(3) for j in range(3)}
+    for nm in 'abc':
+        bb = body_of(method(B, nm))
+        if not (len(bb) == 1 and isinstance(bb[0], ast.Return)):
+            bad('Box.' + nm)
+        lens.append(tr(bb[0].value, venv)[0])
+    angles = []
+    for nm in ('alpha', 'beta', 'gamma'):
+        bb = body_of(method(B, nm))
+        ok = len(bb) == 1 and isinstance(bb[0], ast.Return) and isinstance(bb[0].value, ast.Call) \
+            and U(bb[0].value.func) == 'vect_angle' and len(bb[0].value.args) == 2 and not bb[0].value.keywords
+        if not ok:
+            bad('Box.' + nm)
+        ij = []
+        for a in bb[0].value.args:
+            if not (isinstance(a, ast.Subscript) and U(a.value) == 'self.__vects' and isinstance(a.slice, ast.Constant)):
+                bad('Box.' + nm)
+            ij.append(a.slice.value)
+        angles.append((nm, ij[0], ij[1]))
+    # Box.set dispatch
+    b = body_of(method(B, 'set'))
+    if not (len(b) == 1 and isinstance(b[0], ast.If) and U(b[0].test) == 'len(kwargs) == 0'):
+        bad('Box.set: first branch')
+    disp = []
+    node = b[0]
+    while True:
+        if len(node.orelse) == 1 and isinstance(node.orelse[0], ast.If):
+            node = node.orelse[0]
+            t = node.test
+            if not (isinstance(t, ast.Compare) and len(t.ops) == 1 and isinstance(t.ops[0], ast.In)
+                    and isinstance(t.left, ast.Constant) and U(t.comparators[0]) == 'kwargs'):
+                bad('Box.set: test ' + U(t))
+            calls = [U(s.value.func) for s in node.body if isinstance(s, ast.Expr) and isinstance(s.value, ast.Call)
+                     and U(s.value.func).startswith('self.set_')]
+            writes = [U(s.targets[0]) for s in node.body if isinstance(s, ast.Assign) and U(s.targets[0]).startswith('self.')]
+            disp.append((t.left.value, (calls + writes)))
+        else:
+            if not (len(node.orelse) == 1 and isinstance(node.orelse[0], ast.Raise)
+                    and U(node.orelse[0].exc).startswith('TypeError')):
+                bad('Box.set: final else')
+            break
+    # set_vectors
+    fn = method(B, 'set_vectors')
+    b = body_of(fn)
+    if U(default_of(fn, 'origin')) != 'None' or [U(s) for s in b] != [
+            'if origin is None:\n    origin = [0.0, 0.0, 0.0]', 'self.vects = [avect, bvect, cvect]', 'self.origin = origin']:
+        bad('Box.set_vectors: body')
+    # set_lengths
+    fn = method(B, 'set_lengths')
+    b = body_of(fn)
+    if not (len(b) == 4 and isinstance(b[0], ast.Assert) and isinstance(b[0].test, ast.BoolOp) and isinstance(b[0].test.op, ast.And)
+            and U(b[1]) == 'if origin is None:\n    origin = [0.0, 0.0, 0.0]' and isinstance(b[2], ast.Assign)
+            and U(b[2].targets[0]) == 'self.vects' and U(b[3]) == 'self.origin = origin'
+            and U(default_of(fn, 'origin')) == 'None'):
+        bad('Box.set_lengths: body')
+    lenv = {x: (x, 'K') for x in ('lx', 'ly', 'lz', 'xy', 'xz', 'yz')}
+    lok = ' && '.join('decide ' + tr(v, lenv)[0] for v in b[0].test.values)
+    lvects, ty = tr(b[2].value, lenv)
+    if ty != 'M':
+        bad('Box.set_lengths: matrix')
+    # set_abc
+    fn = method(B, 'set_abc')
+    b = body_of(fn)
+    if [U(default_of(fn, x)) for x in ('alpha', 'beta', 'gamma', 'origin')] != ['90.0', '90.0', '90.0', 'None']:
+        bad('Box.set_abc: defaults')
+    g = b[0]
+    if not (isinstance(g, ast.If) and isinstance(g.test, ast.BoolOp) and isinstance(g.test.op, ast.Or) and not g.orelse
+            and len(g.body) == 1 and isinstance(g.body[0], ast.Raise) and U(g.body[0].exc).startswith('ValueError')):
+        bad('Box.set_abc: angle guard')
+    guard = []
+    for t in g.test.values:
+        if not (isinstance(t, ast.Compare) and len(t.ops) == 1 and type(t.ops[0]) in CMP and isinstance(t.left, ast.Name)):
+            bad('Box.set_abc: angle guard ' + U(t))
+        guard.append((t.left.id, CMP[type(t.ops[0])], int(num(t.comparators[0]))))
+    aenv = {x: (x, 'K') for x in 'abc'}
+    for ang, nm in (('alpha', 'ca'), ('beta', 'cb'), ('gamma', 'cg')):
+        aenv[f'np.cos({ang} * np.pi / 180)'] = (nm, 'K')
+    lets = []
+    for st in b[1:-1]:
+        if not (isinstance(st, ast.Assign) and isinstance(st.targets[0], ast.Name)):
+            bad('Box.set_abc: statement ' + U(st)[:60])
+        x, ty = tr(st.value, aenv)
+        if ty != 'K':
+            bad('Box.set_abc: ' + U(st))
+        lets.append((st.targets[0].id, x))
+        aenv[st.targets[0].id] = (st.targets[0].id, 'K')
+    if [n for n, _ in lets] != ['lx', 'xy', 'xz', 'ly', 'yz', 'lz'] \
+            or U(b[-1]) != 'self.set_lengths(lx=lx, ly=ly, lz=lz, xy=xy, xz=xz, yz=yz, origin=origin)':
+        bad('Box.set_abc: the six LAMMPS parameters / the final call')
+    # vect_angle
+    vtree = ast.parse(cm.source('atomman/tools/vect_angle.py'))
+    fns = [n for n in vtree.body if isinstance(n, ast.FunctionDef) and n.name == 'vect_angle']
+    if len(fns) != 1:
+        bad('vect_angle not found')
+    vb = body_of(fns[0])
+    want = ['vect1 = np.asarray(vect1)', 'vect2 = np.asarray(vect2)']
+    if [U(s) for s in vb[:2]] != want or not all(isinstance(s, ast.Assign) for s in vb[2:5]) \
+            or [U(s.targets[0]) for s in vb[2:5]] != ['u_vect1', 'u_vect2', 'cosine']:
+        bad('vect_angle: head')
+    venv2 = {'vect1': ('vect1', 'V'), 'vect2': ('vect2', 'V')}
+    for s in vb[2:4]:
+        venv2[U(s.targets[0])] = tr(s.value, venv2)
+    vcos, ty = tr(vb[4].value, venv2)
+    tail = ast.dump(ast.Module(body=vb[5:], type_ignores=[]), include_attributes=False)
+    out['vectAngleTailPin'] = hashlib.sha256(tail.encode()).hexdigest()[:20]
+
+    # ---------------------------------------------------------------- emit
+    def lst(xs):
+        return '[' + ', '.join(xs) + ']'
+
+    def strs(xs):
+        return lst('"%s"' % x for x in xs)
+    abc_defs = []
+    for want_name, lean_name in (('lx', 'abcLx'), ('ly', 'abcLy'), ('lz', 'abcLz'), ('xy', 'abcXy'), ('xz', 'abcXz'), ('yz', 'abcYz')):
+        lines = []
+        for n, x in lets:
+            lines.append(f'  let {n} := {x}')
+        abc_defs.append(f'def {lean_name} (sqrt : K → K) (a b c ca cb cg : K) : K :=\n' + '\n'.join(lines) + f'\n  {want_name}')
+    L = []
+    A = L.append
+    A('/- GENERATED by harness/props/c05.py (translate) from atomman/core/System.py (wrap, box_set, normalize, atoms_prop),')
+    A('   atomman/lammps/normalize.py, atomman/core/Box.py (setters, reciprocal_vects, position_*, set, set_vectors, set_lengths,')
+    A('   set_abc, a b c alpha beta gamma) and atomman/tools/vect_angle.py — do not edit.')
+    A('   `Proofs/C05_Source.lean` proves each definition equal to the hand-written model (theorems `gen_*_eq_model`). -/')
+    A('import Atomman.C05_Src')
+    A('')
+    A('set_option linter.unusedVariables false')
+    A('')
+    A('namespace Atomman.Generated.WrapSource')
+    A('open Atomman Atomman.C05')
+    A('')
+    A('/-! ### signatures, defaults, refusals -/')
+    A(f'/-- `System.wrap(self, return_imageflags=…)` -/\ndef wrapFlagDefault : PyVal := {out["wrapFlagDefault"]}')
+    A(f'/-- `wrap`: `if <test>: return imageflags` -/\ndef wrapReturnsFlags (v : PyVal) : Bool := {out["wrapReturnsFlags"]}')
+    A(f"/-- `box_set`: `scale = kwargs.pop('scale', …)` -/\ndef boxSetScaleDefault : PyVal := {out['boxSetScaleDefault']}")
+    A('/-- `box_set`: `if not isinstance(scale, bool): raise …` -/\ndef boxSetAccepts (v : PyVal) : Bool := v.isBool')
+    A(f'def boxSetRefusal : Err := {out["boxSetRefusal"]}')
+    A(f'/-- `box_set`: the test that selects the branch holding the scaled positions -/\ndef boxSetScaledBranch (v : PyVal) : Bool := {out["boxSetScaledBranch"]}')
+    A(f'/-- `System.normalize(self, style=…, return_transform=…)` -/\ndef normStyleDefault : PyVal := {out["normStyleDefault"]}')
+    A(f'def normFlagDefault : PyVal := {out["normFlagDefault"]}')
+    A(f'/-- `if style == …: return lmp_normalize(self, return_transform=return_transform) else: raise …` -/\ndef normStyleAccepted : PyVal := {out["normStyleAccepted"]}')
+    A(f'def normStyleRefusal : Err := {out["normStyleRefusal"]}')
+    A(f'/-- `atomman.lammps.normalize(system, return_transform=…)` -/\ndef lmpFlagDefault : PyVal := {out["lmpFlagDefault"]}')
+    A(f'/-- `if <test>: return system, transformation else: return system` -/\ndef lmpReturnsTransform (v : PyVal) : Bool := {out["lmpReturnsTransform"]}')
+    A('')
+    A('/-! ### the bodies as statement lists (order as in the source) -/')
+    A(f'def boxSetScaledBody : List Stmt := {lst(out["boxSetScaledBody"])}')
+    A(f'def boxSetPlainBody : List Stmt := {lst(out["boxSetPlainBody"])}')
+    A(f'def wrapBody : List Stmt := {lst(out["wrapBody"])}')
+    A(f'def normalizeBody : List Stmt := {lst(out["normalizeBody"])}')
+    A('')
+    A('/-! ### literals -/')
+    A(f'/-- `mins = np.array([…])`, `maxs = np.array([…])` of `wrap` -/')
+    A(f'def minsInit : List Rat := {lst(rat(x) for x in inits["mins"])}')
+    A(f'def maxsInit : List Rat := {lst(rat(x) for x in inits["maxs"])}')
+    A(f'/-- the padding literals of `wrap` (the doubles, exactly) -/')
+    A(f'def padLoLit : Rat := {rat(inits["padLo"])}')
+    A(f'def padHiLit : Rat := {rat(inits["padHi"])}')
+    A(f'/-- `atol` of the clean-up in the `Box.vects` setter (the double, exactly) -/')
+    A(f'def tinyLit : Rat := {rat(tiny)}')
+    A(f'/-- the three orthogonality self-checks of `lammps.normalize`: rows `(i, j)`, `np.isclose(…, 0.0, atol=…)` (decimal reading) -/')
+    A(f'def assertOrthoPairs : List (Nat × Nat) := {lst("(%d, %d)" % p for p in out["assertOrthoPairs"])}')
+    A(f'def assertOrthoAtol : Rat := {out["assertOrthoAtol"]}')
+    A('/-- `np.allclose(test1, np.array([1., 1., 1.]))` with numpy\'s default tolerances (no keywords in the source) -/')
+    A('def assertNormKeywords : List String := []')
+    A('')
+    A('/-! ### statement pins (normalised AST, sha256) of code that is an option dispatcher, not a formula -/')
+    A(f'/-- `System.atoms_prop` (whole body + signature) -/\ndef atomsPropPin : String := "{out["atomsPropPin"]}"')
+    A(f'/-- `vect_angle` after the cosine: clamp to [-1, 1], `180 * np.arccos(cosine) / np.pi` for the default unit -/\ndef vectAngleTailPin : String := "{out["vectAngleTailPin"]}"')
+    A('')
+    A('/-! ### `Box`: write protocol and dispatch -/')
+    A(f'def vectsSetterSteps : List String := {strs(out["vectsSetterSteps"])}')
+    A(f'def originSetterSteps : List String := {strs(out["originSetterSteps"])}')
+    A(f'/-- `Box.set`: keyword tested by each `elif`, with the `set_*` it calls / the setters it assigns -/')
+    A('def boxSetDispatch : List (String × List String) := ' + lst('("%s", %s)' % (k, strs(v)) for k, v in disp))
+    A(f'/-- `alpha beta gamma` are `vect_angle(self.__vects[i], self.__vects[j])` -/')
+    A('def angleGetters : List (String × Nat × Nat) := ' + lst('("%s", %d, %d)' % a for a in angles))
+    A(f'/-- the disjuncts of the refusal at the head of `set_abc` -/')
+    A('def abcGuard : List (String × String × Nat) := ' + lst('("%s", "%s", %d)' % g for g in guard))
+    A('')
+    A('variable {K : Type}')
+    A('section formulas')
+    A('variable [Add K] [Sub K] [Mul K] [Div K] [Neg K] [Zero K] [One K] [LT K] [LE K] [DecidableLT K] [DecidableLE K]')
+    A('')
+    A('/-- `wrap`, non-periodic branch: `if min <= mins[i]: mins[i] = min - 0.001` (`lo` = `mins[i]` before, `mn` = `min`) -/')
+    A(f'def axisLo (padLo lo mn : K) : K := {formulas["padLo"]}')
+    A('/-- `if max >= maxs[i]: maxs[i] = max + 0.001` -/')
+    A(f'def axisHi (padHi hi mx : K) : K := {formulas["padHi"]}')
+    A('/-- `wrap`, image flag of one coordinate: `np.floor` in the `if self.pbc[i]` branch, the initial 0 otherwise -/')
+    A('def axisFlag (fl : K → Int) (periodic : Bool) (s : K) : Int := if periodic then fl s else 0')
+    A('/-- `wrap`: the box handed to the final `box_set` -/')
+    A(f'def newOrigin (vects : M3 K) (origin mins maxs : V3 K) : V3 K := {formulas["origin"]}')
+    for i, nm in enumerate('abc'):
+        A(f'def new{nm.upper()}vect (vects : M3 K) (origin mins maxs : V3 K) : V3 K := {formulas[nm + "vect"]}')
+    A('/-- `lammps.normalize`: the handedness test and the arguments of the reversal -/')
+    A(f'def leftHanded (vects : M3 K) : Bool := decide {nform["leftHanded"]}')
+    A(f'def flipVects (vects : M3 K) (origin : V3 K) : M3 K := {nform["flipVects"]}')
+    A(f'def flipOrigin (vects : M3 K) (origin : V3 K) : V3 K := {nform["flipOrigin"]}')
+    A('/-- `transformation` (`lstsq` on a square non-singular system read as the exact solve); `saved` = the `vects` kept before the rebuild -/')
+    A(f'def transform (saved vects : M3 K) : M3 K := {nform["transform"]}')
+    A('/-- one entry of the clean-up of the `Box.vects` setter; `m` = `abs(self.__vects).max()` -/')
+    A(f'def cleanEntry (tiny m x : K) : K := {clean}')
+    A('/-- what the `reciprocal_vects` getter computes when the cache is empty -/')
+    A(f'def recipFill (vects : M3 K) : M3 K := {recip}')
+    A('/-- `position_cartesian_to_relative` / `position_relative_to_cartesian` (one point) -/')
+    A(f'def c2r (origin : V3 K) (recip : M3 K) (value : V3 K) : V3 K := {c2r}')
+    A(f'def r2c (vects : M3 K) (origin : V3 K) (relpos : V3 K) : V3 K := {r2c}')
+    A('/-- `Box.a`, `Box.b`, `Box.c` -/')
+    for nm, x in zip('ABC', lens):
+        A(f'def len{nm} (sqrt : K → K) (vects : M3 K) : K := {x}')
+    A('/-- the cosine `vect_angle` hands to `np.arccos` -/')
+    A(f'def vectAngleCos (sqrt : K → K) (vect1 vect2 : V3 K) : K := {vcos}')
+    A('/-- `set_lengths`: the assertion and the matrix handed to the `vects` setter -/')
+    A(f'def lengthsOk (lx ly lz : K) : Bool := {lok}')
+    A(f'def lengthsVects (lx ly lz xy xz yz : K) : M3 K := {lvects}')
+    A('/-- `set_abc`: the six LAMMPS parameters; `ca cb cg` = `np.cos(angle * np.pi / 180)` -/')
+    for d in abc_defs:
+        A(d)
+    A('')
+    A('end formulas')
+    A('')
+    A('end Atomman.Generated.WrapSource')
+    return {'WrapSource': '\n'.join(L) + '\n'}
+
+
 MANIFEST = {
     'text': 'Lean model of System.wrap / atomman.lammps.normalize (floor, padding, padded box, handedness flip, '
             'rebuild from lengths and cosines, transform) with theorems over every ordered field.',
     'note': 'see docs/C05.md',
-    'technique': 'Lean 4 theorems over a hand-written model + differential correspondence + exact clause oracle',
+    'technique': 'Lean 4 theorems over a hand-written model + source reader (ast) regenerating statement lists, formulas, '
+                 'literals, defaults and refusals with proved gen_*_eq_model ties + differential correspondence + exact '
+                 'clause oracle',
 }
